@@ -5,6 +5,7 @@ from __future__ import annotations
 import numpy as np
 from hypothesis import strategies as st
 
+from vf import gen
 from vf import tracking as T
 from vf.engine import Ctx, Property
 
@@ -39,15 +40,21 @@ class C07(Property):
                     spec["ids"] = spec["ids"][::-1]
             return spec
 
-        return st.one_of(T.time_courses(mode="lattice", tier=tier), T.time_courses(mode="motion", tier=tier)).map(backwards)
+        usual = st.one_of(T.time_courses(mode="lattice", tier=tier), T.time_courses(mode="motion", tier=tier)).map(backwards)
+        return gen.rarely(T.crowd_specs(tier), usual, 100)
 
     def exhaustive_jobs(self, tier):
-        return T.lattice_jobs(4 if tier == "quick" else 5)
+        return T.lattice_jobs(4 if tier == "quick" else 5) + T.crowd_jobs(tier)
 
     def expand(self, job):
+        if job.get("crowd"):
+            return iter([T.crowd_job_spec(job)])
         return T.lattice_expand(job)
 
     def check(self, spec, ctx: Ctx):
+        if spec["mode"] == "crowd":
+            spec = T.expand_crowd(spec)
+            ctx.cls("crowd>" + str(max(t for t in (32, 64, 128, 256, 512, 1024, 2048, 4096) if spec["crowd"] > t)))
         etc, geom, grid = T.build_time_course(spec)
         frames = spec["frames"]
         s = spec["site_spacing"]
@@ -111,26 +118,32 @@ class C07(Property):
                 if any(abs(D(k - 1, i, k, j) - E(k - 1, i, k, j)) > tol for i, j in lk):
                     nontrivial = True
                     ctx.cls("link-across-periodic-boundary")
-            dist = np.array([[D(k - 1, i, k, j) for j in range(len(cur))] for i in range(len(prev))]).reshape(len(prev), len(cur))
+            if prev and cur:
+                Pp, Pc = np.array([p["position"] for p in prev], float), np.array([q["position"] for q in cur], float)
+                dist = np.linalg.norm(geom.min_image(Pp[:, None, :] - Pc[None, :, :]), axis=-1)
+            else:
+                dist = np.zeros((len(prev), len(cur)))
             if method == "overlap":
-                rsum = np.array([[p["radius"] + q["radius"] for q in cur] for p in prev]).reshape(len(prev), len(cur))
+                rsum = np.add.outer(np.array([p["radius"] for p in prev], float), np.array([q["radius"] for q in cur], float)).reshape(len(prev), len(cur))
                 knife = bool(np.any(np.abs(dist - rsum) <= tol))
-                rel = {(i, j) for i in range(len(prev)) for j in range(len(cur)) if dist[i, j] < rsum[i, j]}
+                rel = {(int(i), int(j)) for i, j in zip(*np.nonzero(dist < rsum))}
                 for i, j in lk:
                     ctx.require(dist[i, j] < rsum[i, j] + tol, "overlap:link-without-overlap", f"frame {k - 1}->{k}: droplets {i}->{j} linked, distance {dist[i, j]} >= {rsum[i, j]}")
                 if not knife:
+                    has_prev = {j for _, j in rel}
                     for j in range(len(cur)):
-                        if not any((i, j) in rel for i in range(len(prev))):
+                        if j not in has_prev:
                             ctx.require((k, j) in first_of_track, "overlap:linked-without-overlap", f"frame {k} droplet {j} overlaps nothing in frame {k - 1} but does not start a track")
-                    one = all(sum(1 for r in rel if r[0] == i) <= 1 for i in range(len(prev))) and all(sum(1 for r in rel if r[1] == j) <= 1 for j in range(len(cur)))
+                    one = len({i for i, _ in rel}) == len(rel) == len(has_prev)
                     if one:
                         ctx.cls("one-to-one")
                         ctx.require(lk == rel, "overlap:one-to-one-not-followed", f"frame {k - 1}->{k}: links {sorted(lk)} but one-to-one overlap relation {sorted(rel)}")
             else:
                 for i, j in lk:
                     ctx.require(dist[i, j] <= md + tol, "distance:link-too-far", f"frame {k - 1}->{k}: link {i}->{j} over {dist[i, j]} > cut-off {md}")
-                ended = [i for i in range(len(prev)) if not any(l[0] == i for l in lk)]
-                started = [j for j in range(len(cur)) if not any(l[1] == j for l in lk)]
+                linked_i, linked_j = {l[0] for l in lk}, {l[1] for l in lk}
+                ended = [i for i in range(len(prev)) if i not in linked_i]
+                started = [j for j in range(len(cur)) if j not in linked_j]
                 for i in ended:
                     for j in started:
                         ctx.require(not dist[i, j] < md - tol if np.isfinite(md) else False, "distance:unlinked-within-cutoff", f"frame {k - 1}->{k}: track of droplet {i} ends and droplet {j} starts a track although they are {dist[i, j]} apart (cut-off {md})")
@@ -138,10 +151,12 @@ class C07(Property):
                 distinct = vals.size < 2 or bool(np.all(np.diff(vals) > tol))
                 near_cut = np.isfinite(md) and bool(np.any(np.abs(dist - md) <= tol))
                 if distinct and not near_cut:
-                    order = sorted((dist[i, j], i, j) for i in range(len(prev)) for j in range(len(cur)))
+                    flat = np.argsort(dist, axis=None, kind="stable")
                     ui, uj, exp = set(), set(), set()
-                    for d, i, j in order:
-                        if d > md:
+                    for f in flat:
+                        i, j = divmod(int(f), len(cur))
+                        d = dist[i, j]
+                        if d > md or len(ui) == len(prev) or len(uj) == len(cur):
                             break
                         if i in ui or j in uj:
                             continue
